@@ -58,6 +58,8 @@ def run_case(case):
     src = case["src"]
     for r in case["relays"]:
         net.nodes[r].multicast_relay = True
+    for a, lv_ in case.get("mclevel", []):
+        net.nodes[a].multicast_level = lv_  # the documented override: the node now listens on (and relays from) that level
     msg = H.pattern(case["mlen"], case.get("seed", 0), salt=11)
     obs = {"ret": "unset", "c07": [], "t_mc": 0}
     pre = [tuple(x) for x in case.get("pre", [])]
@@ -173,7 +175,12 @@ def level_addr(level):
 def judge(case, obs, pid=PID):
     src = case["src"]
     lvl_arg = case["level"]
-    L = N.level_of(src) if lvl_arg is None else max(0, min(4, lvl_arg))
+    mc = {a: x for a, x in case.get("mclevel", [])}
+
+    def lv(a):
+        """the level a node listens on: its own, unless multicast_level was overridden"""
+        return mc.get(a, N.level_of(a))
+    L = lv(src) if lvl_arg is None else max(0, min(4, lvl_arg))
     sc = sender_class(src)
     shape = "%s:L%s" % (sc, "default" if lvl_arg is None else L)
     msg = obs["msg"]
@@ -182,7 +189,7 @@ def judge(case, obs, pid=PID):
     off = case["allow_off"]
     full_nodes = {k for k, op in [tuple(x) for x in case.get("pre", [])] if op.startswith("fill-queue")}
     has_burst = any(op == "multicast-burst" for _, op in [tuple(x) for x in case.get("pre", [])])
-    relays = [r for r in case["relays"] if 1 <= N.level_of(r) <= 3 and r != off]
+    relays = [r for r in case["relays"] if 1 <= lv(r) <= 3 and r != off]
     exact = len(relays) <= 1  # with several relays re-broadcasts may collide: safety clauses only
     clean = obs["ncoll"] == 0 and not any(obs["overflow"].values())
     v = []
@@ -191,19 +198,19 @@ def judge(case, obs, pid=PID):
     for key, e in obs["exc"].items():
         v.append(("%s/exception:%s:%s" % (pid, e.split(":")[0], shape), "node %o raised %s" % (key, e)))
     # ---- reference propagation model (from the property text)
-    direct = {k for k in obs["queues"] if k != src and N.level_of(k) == L and k != off}
+    direct = {k for k in obs["queues"] if k != src and lv(k) == L and k != off}
     may_reach = {L}  # levels a copy may legitimately appear on
     cur = L
-    while any(N.level_of(r) == cur for r in relays) and cur <= 3:
+    while any(lv(r) == cur for r in relays) and cur <= 3:
         cur += 1
         may_reach.add(cur)
     relayed = set()
     relay_node = None
     if exact and relays and relays[0] in direct:
         relay_node = relays[0]
-        relayed = {k for k in obs["queues"] if N.level_of(k) == N.level_of(relay_node) + 1 and k != off}
+        relayed = {k for k in obs["queues"] if lv(k) == lv(relay_node) + 1 and k != off}
     for key, q in obs["queues"].items():
-        lvl = N.level_of(key)
+        lvl = lv(key)
         if q.count(want) > 1:
             v.append(("%s/duplicate:%s" % (pid, shape), "node %o queued the multicast %d times" % (key, q.count(want))))
         for g in q:
@@ -240,7 +247,7 @@ def judge(case, obs, pid=PID):
     sname = obs["names"][src]
     for name, txs in obs["tx"].items():
         key = next(k for k, n in obs["names"].items() if n == name)
-        lvl = N.level_of(key)
+        lvl = lv(key)
         for addr, payload, coll in txs:
             f = N.parse_frame(payload)
             if f is None or f["to"] != 0o100 or f["from"] != src:
@@ -261,7 +268,7 @@ def judge(case, obs, pid=PID):
             if any(a in [level_addr(x) for x in range(5)] for a, _, _ in txs):
                 v.append(("%s/relay-wrong-address:%s" % (pid, shape), "level-4 relay %o re-broadcast to %s, the address of an existing level" % (key, txs[0][0].hex())))
             continue
-        if key not in relays or N.level_of(key) not in may_reach:
+        if key not in relays or lv(key) not in may_reach:
             v.append(("%s/unexpected-relay:%s" % (pid, shape), "node %o (level %d, relay %s) re-broadcast the multicast" % (key, lvl, "on" if key in relays else "off")))
             continue
         if any(a != level_addr(lvl + 1) for a, _, _ in txs):
@@ -272,12 +279,12 @@ def judge(case, obs, pid=PID):
             if want not in obs["queues"][key] and key not in full_nodes:
                 v.append(("%s/relay-not-queued:%s" % (pid, shape), "relay %o did not queue the multicast for its own application" % key))
     if relay_node is not None and clean and obs["names"][relay_node] not in obs["tx"] and (want in obs["queues"][relay_node] or relay_node in full_nodes):
-        v.append(("%s/relay-silent:%s" % (pid, shape), "relay %o of level %d received the multicast but did not re-broadcast it" % (relay_node, N.level_of(relay_node))))
+        v.append(("%s/relay-silent:%s" % (pid, shape), "relay %o of level %d received the multicast but did not re-broadcast it" % (relay_node, lv(relay_node))))
     if sname not in obs["tx"] and not obs["aborted"] and src not in obs["exc"] and direct:
         v.append(("%s/not-transmitted:%s" % (pid, shape), "nothing was transmitted although level %d has other listening nodes" % L))
     # ---- registers: a node with allow_multicast off does not listen on the shared level address
     for key, (addr, is_open) in obs["pipe0"].items():
-        if key == off and is_open and addr == level_addr(N.level_of(key)):
+        if key == off and is_open and addr == level_addr(lv(key)):
             v.append(("%s/listens-with-multicast-off:%s" % (pid, shape), "node %o listens on the level address with allow_multicast off" % key))
     for key, bad in obs["c07"]:
         v.append(("%s/not-listening:%s" % (pid, bad[0]), "node %o: %s" % (key, ",".join(bad))))
@@ -350,6 +357,17 @@ def build_items(tier, seed):
                             k += 1
                             cases.append(dict(src=src, level=lvl, relays=list(relays), allow_off=allow_off, mlen=mlen, mtype=TYPES[k % len(TYPES)],
                                               cost=k % 4, lat=k % 2, seed=seed, id0=(k * 131) & 0xFFFF, topo=1))
+    # overridden multicast levels (assigned after the address): receivers, relays (the next level is the one after the level
+    # they listen on) and senders that take their default level from it
+    for src, lvl, mcl, relays in ((O("0"), 2, [(O("1"), 2)], [O("1")]), (O("0"), 2, [(O("1"), 2)], []), (O("2"), 1, [(O("11"), 1)], [O("11")]),
+                                  (O("0"), 3, [(O("12"), 3)], []), (O("0"), 2, [(O("12"), 3)], []), (O("11"), None, [(O("11"), 1)], []),
+                                  (O("1"), None, [(O("1"), 3)], [O("111")]), (O("0"), 1, [(O("1"), 2), (O("11"), 1)], [O("11")]),
+                                  (O("2"), 3, [(O("1"), 3), (O("111"), 2)], [O("1")]), (O("0"), 1, [(O("1"), 2)], [O("1")])):
+        for mlen in (5, 25):
+            for (c, l) in ((0, 0), (2, 1)):
+                k += 1
+                cases.append(dict(src=src, level=lvl, relays=list(relays), allow_off=None, mlen=mlen, mtype=TYPES[k % len(TYPES)], cost=c, lat=l if mlen <= 24 else 0,
+                                  seed=seed, id0=(k * 131) & 0xFFFF, mclevel=[list(x) for x in mcl]))
     # pre-histories: the multicast is preceded by unicast traffic (delivered / failed) or a
     # re-assignment of the node address at the sender, at a receiver of the target level, at a relay
     for src in SENDERS:
